@@ -62,8 +62,8 @@ PROBES = ['side:server', 'side:client', 'mode:recv', 'mode:arrival', 'fault:shor
           'plan:k-cuts', 'plan:all-boundaries', 'plan:byte-at-a-time', 'plan:stride', 'framing:none', 'framing:clen', 'framing:chunked', 'keepalive-followup',
           'whole-event-seen', 'cut:firstline', 'cut:headers', 'cut:body', 'cut:chunked-body', 'client-response-seen', 'client:framing:close']
 TIERS = {
-    'quick': dict(runs=60000, wall=33, chunk=200, cfg=dict(max_msgs=3, max_segments=300)),
-    'thorough': dict(runs=1500000, wall=600, chunk=400, cfg=dict(max_msgs=3, max_segments=1200)),
+    'quick': dict(runs=60000, wall=33, chunk=60, cfg=dict(max_msgs=3, max_segments=300)),
+    'thorough': dict(runs=1500000, wall=600, chunk=200, cfg=dict(max_msgs=3, max_segments=1200)),
 }
 
 SRV = ('10.0.0.1', 80)
@@ -128,6 +128,7 @@ class Setup:
         self.side = ['server', 'client'][ch.weighted([2, 1], 'side')]
         self.mode = ['recv', 'arrival'][ch.weighted([3, 1], 'mode')]
         self.poller = ch.choice(POLLERS, 'poller')
+        self.sim = 0.0      # simulated seconds covered by all executions of this run
 
     def fresh_world(self):
         world.reset(None)                      # clock, serials, handler identities: identical start for both executions
@@ -191,6 +192,7 @@ def exec_server(su, stream, plans, applied=None):
             obs.append((tuple(seen[n0:]), bytes(p.inp[i0:]), bool(p.eof or p.reset)))
         return obs
     finally:
+        su.sim += W.now - world.EPOCH
         NET.oplog = None
         NET.close_all()
 
@@ -279,6 +281,7 @@ def exec_client(su, stream, plans, applied=None):
             obs.append((tuple(seen[n0:]),))
         return obs
     finally:
+        su.sim += W.now - world.EPOCH
         NET.oplog = None
         NET.close_all()
 
@@ -296,11 +299,11 @@ def first_difference(side, a, b):
         x, y = a[i], b[i]
         if x == y:
             continue
-        if len(x) == 1 or len(y) == 1 or len(x[0]) != len(y[0]):
-            if isinstance(x[0], tuple) and isinstance(y[0], tuple):
-                return i, 'exchange %d: %d %s event(s) with whole delivery, %d when segmented' % (
-                    i, len(x[0]), 'request' if side == 'server' else 'response', len(y[0]))
-            return i, 'exchange %d: %r vs %r' % (i, x[0], y[0])
+        if isinstance(x[0], str) or isinstance(y[0], str):          # a marker such as ('connection-gone',) instead of an observation
+            return i, 'exchange %d: whole delivery %r, segmented %r' % (i, x[0] if isinstance(x[0], str) else 'took place', y[0] if isinstance(y[0], str) else 'took place')
+        if len(x[0]) != len(y[0]):
+            return i, 'exchange %d: %d %s event(s) with whole delivery, %d when segmented' % (
+                i, len(x[0]), 'request' if side == 'server' else 'response', len(y[0]))
         for ea, eb in zip(x[0], y[0]):
             for f, (va, vb) in zip(REQ_FIELDS if side == 'server' else RES_FIELDS, zip(ea, eb)):
                 if va != vb:
@@ -341,6 +344,9 @@ def localise(su, stream, plans, idx, avoid_classes, budget=90):
         return first_difference(side, wholes[k], run(su, s, pl)) is not None
 
     upto = min(idx, len(stream) - 1)
+    # exchanges follow each other (no pipelining): what comes after the first differing exchange cannot have caused it, and may differ for
+    # reasons of its own - localise on the stream up to that exchange only
+    stream, plans = list(stream[:upto + 1]), [list(p) for p in plans[:upto + 1]]
     # 1. spelling variants: does the difference go away when every variant in the stream is spelt canonically?
     names = sorted({v[0] for j in range(upto + 1) for v in stream[j].variants})
     if names:
@@ -442,7 +448,6 @@ def _run(ctx, su):
     whole = run(su, stream, [[] for _ in stream])
     applied = []
     seg = run(su, stream, plans, applied)
-    ctx.sim_time = (len(whole) + len(seg)) * 0.01
 
     nev = 0
     for i, o in enumerate(whole):
@@ -467,6 +472,7 @@ def _run(ctx, su):
     if napplied:
         ctx.stat('fault:short_read' if su.mode == 'recv' else 'fault:piecewise_arrival', napplied)
     ctx.nontrivial = bool(nev and napplied)
+    ctx.sim_time = su.sim
 
     # "every segmentation ... yields the same single request event as delivering it in one piece" (and the same response sent)
     d = first_difference(side, whole, seg)
@@ -474,6 +480,7 @@ def _run(ctx, su):
         idx, text = d
         for i, o in enumerate(seg):
             ctx.trace('   segmented delivery, exchange %d: %s' % (i, _describe(side, o)))
+        ctx.sim_time = su.sim
         suffix, why = localise(su, stream, plans, idx, avoid_classes)
         ctx.trace('DIFFERENCE %s  [%s]' % (text, why))
         ctx.violation(pre + suffix, '%s delivery by %s: %s; %s. Message %d: %s' % (
